@@ -82,9 +82,14 @@ def main():
                 for fn in sorted(files)[:2]:
                     shutil.copy(os.path.join(root, fn), os.path.join(dst, f"caught-replay-{n}.json"))
                     n += 1
+        old_meta = os.path.join(dst, "meta.json")
+        if a.skip_suite and os.path.exists(old_meta):
+            prev = json.load(open(old_meta))
+            if "suite_with_patch" in prev:
+                meta["suite_with_patch"] = prev["suite_with_patch"] + " (from the first evaluation of this seed)"
         meta["confirmed"] = bool(meta["demo_unchanged_exit"] == 0 and meta["patch_applies"]
                                  and meta["demo_patched_exit"] != 0
-                                 and (a.skip_suite or "missing=0" in meta.get("suite_with_patch", "")))
+                                 and "missing=0" in meta.get("suite_with_patch", ""))
         with open(os.path.join(dst, "meta.json"), "w") as f:
             json.dump(meta, f, indent=1)
         print(json.dumps(meta, indent=1))
